@@ -21,7 +21,7 @@ use vcore::{CaseCfg, Ctx, Draw, Outcome, hash_str};
 use vproj::cli::{CliResult, OutTree, Workspace, diff_trees};
 use vproj::edit::{EditOp, EditPolicy, Editor, OutKind};
 use vproj::model::Project;
-use vproj::toml::{SrcMap, Target};
+use vproj::toml::{SrcMap, Target, TomlEdit};
 use vproj::{GenOpts, gen_project};
 
 #[derive(Clone, Copy, PartialEq, Debug)]
@@ -78,6 +78,8 @@ struct Since {
     /// (`check`, or a build that failed / did not emit)
     older_then_hashed: BTreeSet<String>,
     deleted_maps: BTreeSet<String>,
+    /// `[format]` of Veryl.toml changed
+    format_changed: bool,
     /// generic context and disk text at the last successful warm build
     ok_ctx: BTreeMap<String, String>,
     ok_disk: BTreeMap<String, String>,
@@ -119,6 +121,8 @@ fn explain_output_diff(
                 cause = "older-mtime-after-check".into();
             } else if kind == "map" && since.deleted_maps.contains(k) && warm.get(k).is_none() {
                 cause = "deleted-map-not-regenerated".into();
+            } else if unchanged && since.format_changed && kind != "filelist" {
+                cause = "format-section-not-in-cache-key".into();
             } else if unchanged && since.ok_ctx.get(src) != ctx_now.get(src) {
                 cause = "generic-definer-not-reemitted".into();
             }
@@ -183,6 +187,9 @@ fn one_history(d: &mut Draw, thorough: bool) -> Outcome {
                 EditOp::DeleteOutput { rel, kind: OutKind::Map } => {
                     since.deleted_maps.insert(rel.clone());
                 }
+                EditOp::Toml(t) if matches!(t, TomlEdit::FormatIndent | TomlEdit::FormatAlign) => {
+                    since.format_changed = true;
+                }
                 _ => {}
             }
             // any later write of the file with a current mtime ends the older-mtime situation
@@ -244,14 +251,14 @@ fn one_history(d: &mut Draw, thorough: bool) -> Outcome {
                     .iter()
                     .find(|x| !x.code.is_empty())
                     .map(|x| x.code.clone())
-                    .unwrap_or_else(|| format!("exit {:?}", warm.code));
+                    .unwrap_or_else(|| format!("exit {:?} {}", warm.code, warm.panic_line()));
                 return Outcome::skip(format!("generated project not accepted ({why})"));
             }
         } else {
             warm_cmds += 1;
         }
         if cold.panicked && warm.panicked {
-            return Outcome::skip("both runs panic (C11's domain)");
+            return Outcome::skip(format!("both runs panic (C11's domain): {}", warm.panic_line()));
         }
         let mk_input = |extra: serde_json::Value| {
             json!({
@@ -385,8 +392,11 @@ fn one_history(d: &mut Draw, thorough: bool) -> Outcome {
 
 pub fn run(ctx: &Ctx) {
     let thorough = !ctx.is_quick();
-    let n = ctx.scale(240, 6000);
-    ctx.run("history", CaseCfg::cases(n).choices(1200).timeout_s(900), move |d| {
+    let mut n = ctx.scale(240, 6000);
+    if let Some(k) = std::env::var("VERIF_C04_CASES").ok().and_then(|x| x.parse().ok()) {
+        n = k; // development aid
+    }
+    ctx.run("history", CaseCfg::cases(n).choices(1200).timeout_s(900).shrink_iters(30), move |d| {
         one_history(d, thorough)
     });
     ctx.assume("the `veryl` binary is /repo's own main.rs built by harness package vcli with the harness profile (opt-level 2, no debug assertions)");
@@ -398,4 +408,45 @@ pub fn run(ctx: &Ctx) {
         "exploration",
         "vproj projects (2-7 files: packages, interfaces, modules, generics, $sv members, #[test] modules, examples/, sub-directories, Veryl.toml variants, incremental = true) x histories of 4-12 steps (edit operations of vproj::edit, veryl build/check, rarely veryl test); non-trivial = the history has a warm command that printed `Restored k/n` with k >= 1 after at least one edit; distinct by project+history text",
     );
+}
+
+/// Development aid (`vc-proj GEN <n>`): generate `n` projects, run `veryl check`
+/// on each, print the acceptance rate and keep the rejects under
+/// /verif/.work/genreject-*.
+pub fn gen_probe(n: usize) {
+    let mut x: u64 = std::env::var("VERIF_SEED").ok().and_then(|s| s.parse().ok()).unwrap_or(1) * 0x9E37_79B9_7F4A_7C15;
+    let mut next = move || {
+        x = x.wrapping_add(0x9E37_79B9_7F4A_7C15);
+        let mut z = x;
+        z = (z ^ (z >> 30)).wrapping_mul(0xBF58_476D_1CE4_E5B9);
+        z = (z ^ (z >> 27)).wrapping_mul(0x94D0_49BB_1331_11EB);
+        (z ^ (z >> 31)) as u32
+    };
+    let mut ok = 0;
+    let mut why: BTreeMap<String, usize> = BTreeMap::new();
+    for i in 0..n {
+        let v: Vec<u32> = (0..1200).map(|_| next()).collect();
+        let mut d = Draw::new(v);
+        let p = gen_project(&mut d, &GenOpts::default());
+        let mut ws = Workspace::new("genreject", &p.cfg.name);
+        let _ed = Editor::create(&p, &ws);
+        let r = ws.veryl(&["check"]);
+        if r.code == Some(0) && r.diags.is_empty() {
+            ok += 1;
+        } else {
+            let k = r
+                .diags
+                .iter()
+                .find(|x| !x.code.is_empty())
+                .map(|x| format!("{} {}", x.code, x.message))
+                .unwrap_or_else(|| format!("exit {:?}: {}", r.code, r.tail(3)));
+            println!("#{i} rejected: {k}\n   {}\n   kept {}", p.summary(), ws.root.display());
+            *why.entry(k.chars().take(60).collect()).or_default() += 1;
+            ws.scratch.keep();
+        }
+    }
+    println!("accepted {ok}/{n}");
+    for (k, c) in why {
+        println!("{c:4}  {k}");
+    }
 }
